@@ -27,16 +27,22 @@ import (
 // C05 — three-way merge keeps all non-conflicting changes, never silently alters data.
 
 type c05Params struct {
-	Rows      int      `json:"rows"`
-	NCols     int      `json:"ncols"`
-	PK        []int    `json:"pk"` // key column positions in the base; empty = keyless
-	Branches  int      `json:"branches"`
-	Ops       []string `json:"ops"` // allowed op kinds: edit remove add coladd colremove reorder rename conflict samecell remove-vs-edit sameadd
-	Intensity int      `json:"intensity"`
-	Output    string   `json:"output"`             // blocks | rows | cli
-	Swap      bool     `json:"swap"`               // list the branches in reverse order
-	Identity  string   `json:"identity,omitempty"` // "", "X-base", "X-X"
-	NoFF      string   `json:"no_ff,omitempty"`    // cli + X-base: the unchanged branch stays at the base commit and fast-forward is disabled by "flag" or "config"
+	Rows      int        `json:"rows"`
+	NCols     int        `json:"ncols"`
+	PK        []int      `json:"pk"` // key column positions in the base; empty = keyless
+	Branches  int        `json:"branches"`
+	Ops       []string   `json:"ops"` // allowed op kinds: edit remove add coladd colremove reorder rename conflict samecell remove-vs-edit sameadd
+	Intensity int        `json:"intensity"`
+	Output    string     `json:"output"`             // blocks | rows | cli
+	Swap      bool       `json:"swap"`               // list the branches in reverse order
+	Identity  string     `json:"identity,omitempty"` // "", "X-base", "X-X"
+	Forced    []forcedOp `json:"forced,omitempty"`   // operations applied first, in this order
+	NoFF      string     `json:"no_ff,omitempty"`    // cli + X-base: the unchanged branch stays at the base commit and fast-forward is disabled by "flag" or "config"
+}
+
+type forcedOp struct {
+	Branch int    `json:"branch"`
+	Op     string `json:"op"`
 }
 
 type branchScript struct {
@@ -111,9 +117,19 @@ func genMergeTuple(rng *rand.Rand, p *c05Params) (*model.Tbl, []*model.Tbl, [][]
 	}
 	log := func(i int, f string, a ...interface{}) { scripts[i] = append(scripts[i], fmt.Sprintf(f, a...)) }
 	newRowCounter := 0
-	for step := 0; step < p.Intensity; step++ {
-		op := p.Ops[rng.Intn(len(p.Ops))]
-		i := rng.Intn(p.Branches)
+	type opAt struct {
+		op string
+		br int
+	}
+	var plan []opAt
+	for _, f := range p.Forced {
+		plan = append(plan, opAt{f.Op, f.Branch % p.Branches})
+	}
+	for k := 0; k < p.Intensity; k++ {
+		plan = append(plan, opAt{p.Ops[rng.Intn(len(p.Ops))], rng.Intn(p.Branches)})
+	}
+	for step, pa := range plan {
+		op, i := pa.op, pa.br
 		b := branches[i]
 		switch op {
 		case "edit":
@@ -226,6 +242,38 @@ func genMergeTuple(rng *rand.Rand, p *c05Params) (*model.Tbl, []*model.Tbl, [][]
 			}
 			b.Cols = nc
 			log(i, "reorder %v", perm)
+		case "shuffle-add":
+			// the shared columns in another order, and a new column directly behind each of two of them
+			if keyless || len(b.Cols) < 3 {
+				continue
+			}
+			perm := rng.Perm(len(b.Cols))
+			nc := make([]string, 0, len(b.Cols)+2)
+			added := 0
+			addAfter := map[int]bool{rng.Intn(len(perm)): true, rng.Intn(len(perm)): true}
+			var layout []int // index into the old row, or -1-k for the k-th new column
+			for j, pj := range perm {
+				nc = append(nc, b.Cols[pj])
+				layout = append(layout, pj)
+				if addAfter[j] {
+					nc = append(nc, fmt.Sprintf("sa%d_%d_%d", i, step, added))
+					layout = append(layout, -1-added)
+					added++
+				}
+			}
+			for ri, r := range b.Rows {
+				nr := make([]string, len(layout))
+				for j, src := range layout {
+					if src >= 0 {
+						nr[j] = r[src]
+					} else {
+						nr[j] = fmt.Sprintf("V%d_%d", ri%4, -src)
+					}
+				}
+				b.Rows[ri] = nr
+			}
+			b.Cols = nc
+			log(i, "shuffle-add %v", nc)
 		case "rename":
 			if keyless || len(nonKey) == 0 {
 				continue
@@ -880,7 +928,7 @@ func runMergeCLI(o *fw.Obs, env *fw.Env, id string, base *model.Tbl, branches []
 }
 
 func init() {
-	allOps := []string{"edit", "edit", "remove", "add", "coladd", "colremove", "reorder", "conflict", "samecell", "remove-vs-edit", "sameadd"}
+	allOps := []string{"edit", "edit", "remove", "add", "coladd", "colremove", "reorder", "shuffle-add", "conflict", "samecell", "remove-vs-edit", "sameadd"}
 	fw.Register(&fw.Property{
 		ID:          "C05",
 		Level:       "exploration",
@@ -920,7 +968,7 @@ func init() {
 				case 1:
 					p.Ops = []string{"edit", "conflict", "samecell", "remove-vs-edit"}
 				case 2:
-					p.Ops = []string{"edit", "coladd", "colremove", "reorder"}
+					p.Ops = []string{"edit", "coladd", "colremove", "reorder", "shuffle-add"}
 				case 3:
 					p.Ops = []string{"edit", "rename", "add"}
 				default:
@@ -943,7 +991,7 @@ func init() {
 				if rng.Intn(3) == 0 {
 					p.Ops = []string{"edit", "conflict", "remove-vs-edit"}
 				} else {
-					p.Ops = []string{"edit", "add", "remove", "coladd", "reorder"}
+					p.Ops = []string{"edit", "add", "remove", "coladd", "colremove", "reorder", "shuffle-add"}
 				}
 				if i%4 == 3 {
 					p.PK = []int{0} // key position plays no part on this path; keeps the case clear of the open key-not-first finding
@@ -952,6 +1000,15 @@ func init() {
 					p.Ops = []string{"edit", "add", "remove", "coladd", "reorder"}
 				}
 				l.Add("cli", p, 0)
+			}
+			// fixed through the CLI: one branch drops a column while the other adds one / reorders (no conflicts possible)
+			for i, f := range [][]forcedOp{
+				{{0, "colremove"}, {1, "coladd"}}, {{1, "colremove"}, {0, "coladd"}}, {{0, "reorder"}, {1, "colremove"}}, {{1, "reorder"}, {0, "colremove"}},
+				{{0, "colremove"}, {1, "shuffle-add"}}, {{1, "colremove"}, {0, "shuffle-add"}}, {{0, "colremove"}, {1, "coladd"}, {1, "coladd"}}, {{1, "colremove"}, {0, "reorder"}, {0, "coladd"}},
+			} {
+				for rep := 0; rep < l.N(2, 40); rep++ {
+					l.Add("cli", c05Params{NCols: 3 + (i+rep)%3, Branches: 2, Intensity: rep % 2, Rows: 4 + rep%30, Output: "cli", PK: []int{0}, Ops: []string{"edit", "add"}, Forced: f}, 0)
+				}
 			}
 			return l.Cases
 		},
